@@ -25,7 +25,8 @@
                      run_nest (ties the knot over the forest with explicit nesting fuel), run
    outcome           Done v log | Fail errs log          (later: Interrupted ..., added by C05/C06)
    log               list of (graph-instance path, list of (node path, input)): one entry per superstep
-                     of every graph instance, in execution order; log_steps_at p filters one instance.
+                     of every graph instance, in execution order; an entry with an empty event list marks
+                     the start of a run of that instance; log_steps_at p filters one instance.
 
    Conventions: association lists sorted by key (nlist_insert_sorted), so states print canonically.
    Map-iteration nondeterminism of the Go code is resolved to "ascending key order"; what is compared
@@ -461,7 +462,7 @@ Section Engine.
     Definition step (p : path) (g : graph) (ls : loopstate) : step_result :=
       if step_limit_hit g (ls_step ls) then Finish (Fail [mkerr eMaxSteps] (ls_log ls)) (ls_st ls) else
       let '(results, sublog, s') := submit p g (ls_next ls) (ls_st ls) in
-      let lg := ls_log ls ++ step_entry p (ls_next ls) :: sublog in
+      let lg := ls_log ls ++ (match ls_next ls with [] => [] | _ => [step_entry p (ls_next ls)] end) ++ sublog in
       let '(completed, running') := wait_tasks g (ls_step ls) (ls_running ls ++ results) in
       match task_errors completed with
       | (_ :: _) as es => Finish (Fail es lg) s'
@@ -500,22 +501,26 @@ Section Engine.
       | Dag => S (S (List.length (g_nodes g)))
       end.
 
-    Definition init_state (cs : chans) (ready : list (key * V)) (s : St) : loopstate :=
-      {| ls_step := 0; ls_chans := cs; ls_next := ready; ls_running := []; ls_st := s; ls_log := [] |}.
+    (* every run of a graph instance starts its log with the marker entry (p, []) — the same sub-graph
+       node can run several times (outer cycles); supersteps without a task are not logged *)
+    Definition run_marker (p : path) : logentry := (p, []).
+
+    Definition init_state (p : path) (cs : chans) (ready : list (key * V)) (s : St) : loopstate :=
+      {| ls_step := 0; ls_chans := cs; ls_next := ready; ls_running := []; ls_st := s; ls_log := [run_marker p] |}.
 
     (* runner.run for a fresh run (no checkpoint) *)
     Definition run_flat (p : path) (g : graph) (x : V) (s : St) : outcome * St :=
       match init_chans g with
-      | Err e => (Fail [mkerr e] [], s)
-      | Panic => (Fail [mkerr ePanic] [], s)
+      | Err e => (Fail [mkerr e] [run_marker p], s)
+      | Panic => (Fail [mkerr ePanic] [run_marker p], s)
       | Ok cs0 =>
         match calc_next g cs0 [(kSTART, x)] with
-        | Err e => (Fail [mkerr e] [], s)
-        | Panic => (Fail [mkerr ePanic] [], s)
+        | Err e => (Fail [mkerr e] [run_marker p], s)
+        | Panic => (Fail [mkerr ePanic] [run_marker p], s)
         | Ok (cs1, ready) =>
           match alookup kEND ready with
-          | Some v => (Done v [], s)
-          | None => iterate p g (loop_fuel g) (init_state cs1 ready s)
+          | Some v => (Done v [run_marker p], s)
+          | None => iterate p g (loop_fuel g) (init_state p cs1 ready s)
           end
         end
       end.
